@@ -216,6 +216,54 @@ def cqd_check(rng, spec, ops, driver=None):
     return None
 
 
+def prox_cqd_stream(rep, rng, n):
+    """cqd_score of a ProximityArchive (dist_max must be given) for the L1, Euclidean (default and ord=2) and max norms, against the formula
+    evaluated with numpy on data(); the result object must report the norm that was asked for"""
+    from ribs.archives import ProximityArchive
+    for _ in range(n):
+        md = rng.choice([1, 2, 3])
+        a = ProximityArchive(solution_dim=1, measure_dim=md, k_neighbors=rng.choice([1, 3]), novelty_threshold=rng.choice([0.0, 0.5]),
+                             local_competition=rng.random() < 0.3, dtype=rng.choice([np.float64, np.float32]))
+        npts = rng.randint(1, 8)
+        a.add(np.zeros((npts, 1)), np.array([rng.randrange(-32, 33) / 8.0 for _ in range(npts)]),
+              np.array([[rng.randrange(-16, 17) / 4.0 for _ in range(md)] for _ in range(npts)]))
+        d = a.data()
+        if len(d["index"]) == 0:
+            continue
+        iters, nt = 2, 3
+        tp = np.array([[[rng.randrange(-16, 17) / 2.0 for _ in range(md)] for _ in range(nt)] for _ in range(iters)])
+        pens = np.array(rng.choice([[0.0, 0.5, 1.0], [0.25, 2.0], [1.0]]))
+        omin, omax = rng.choice([(-4.0, 4.0), (0.0, 1.0)])
+        dmax = rng.choice([8.0, 1.0, 0.25])
+        mo = np.asarray(d["objective"], dtype=np.float64) / (omax - omin)
+        mm = np.asarray(d["measures"], dtype=np.float64)
+        for ordv, name in ((1, "1"), (None, "default (Euclidean)"), (2, "2"), (np.inf, "inf")):
+            rep.count("prox_cqd_calls")
+            r = a.cqd_score(iterations=iters, target_points=tp, penalties=pens, obj_min=omin, obj_max=omax, dist_max=dmax, dist_ord=ordv)
+            want = []
+            for it in range(iters):
+                sc = 0.0
+                for pen in pens:
+                    for t in tp[it]:
+                        diff = np.abs(mm - np.asarray(t, dtype=np.float64)[None])
+                        dist = diff.sum(axis=1) if ordv == 1 else diff.max(axis=1) if ordv == np.inf else np.sqrt((diff * diff).sum(axis=1))
+                        sc += float(np.max(mo - pen * dist / dmax))
+                want.append(sc)
+            got = [float(x) for x in r.scores]
+            scale = sum(abs(x) for x in want) + len(pens) * nt * (float(np.max(np.abs(mo))) + 1.0)
+            problem = None
+            if len(got) != len(want) or any((not np.isfinite(g)) or abs(g - w) > 1e-9 * scale for g, w in zip(got, want)):
+                problem = "scores = %s but the formula on the current entries gives %s" % (got, want)
+            elif getattr(r, "dist_ord", ordv) != ordv and not (ordv is None and getattr(r, "dist_ord", None) is None):
+                problem = "the result reports dist_ord = %r" % (getattr(r, "dist_ord", None),)
+            if problem:
+                rep.violation("ProximityArchive.cqd_score(dist_ord=%s): %s" % (name, problem),
+                              {"kind": "property", "broken": "cqd_score equals its defining formula on the current elites",
+                               "case": {"measures": mm.tolist(), "objective": d["objective"].tolist(), "targets": tp.tolist(), "penalties": pens.tolist(),
+                                        "obj_min": omin, "obj_max": omax, "dist_max": dmax, "dist_ord": name}}, True, {"kind": "cqd"})
+                return
+
+
 def final_only_stream(rep, rng, n):
     """histories during which NOTHING is read (no stats, no best_elite, no data): only the add feedback is kept.  At the end obj_max must
     be the highest objective accepted since the last clear and best_elite a complete accepted entry with that objective -- also when its
@@ -358,3 +406,4 @@ def check(rep, tier, seed, driver):
             rep.violation("cqd_score: " + e, {"kind": "property", "case": {"spec": spec, "ops": ops}, "broken": "cqd_score formula on current elites"}, True, {"kind": "cqd"})
             break
     final_only_stream(rep, rng, 150 if tier == "quick" else 2500)
+    prox_cqd_stream(rep, rng, 25 if tier == "quick" else 400)
